@@ -1,39 +1,7 @@
 (* C17 -- guarded statements about branch targets, by a complete sweep of a bounded skeleton
    family (the bound is part of every statement), plus the unbounded glue lemmas. *)
-From Aelys Require Import Base.Tactics Model.AirLower Proofs.AirLowerProofs.
+From Aelys Require Import Base.Tactics Model.AirLower Proofs.AirLowerProofs Proofs.AirLowerTargets.
 Local Open Scope N_scope.
-
-(* break / continue only inside a loop of the same function *)
-Fixpoint sc_e (e : sexpr) : bool :=
-  match e with
-  | EAtom | EIdent _ => true
-  | EOp _ args => sc_es args
-  | EShort _ l r => sc_e l && sc_e r
-  | EIfE c t e => sc_e c && sc_e t && sc_e e
-  | ELam _ _ body => sc_ss false body
-  end
-with sc_es (es : sexprs) : bool :=
-  match es with ENil => true | ECons e r => sc_e e && sc_es r end
-with sc_s (inl : bool) (x : sstmt) : bool :=
-  match x with
-  | SExpr e | SLet _ e | SRetE e => sc_e e
-  | SBlock b => sc_ss inl b
-  | SIf c t => sc_e c && sc_s inl t
-  | SIfElse c t e => sc_e c && sc_s inl t && sc_s inl e
-  | SWhile c b => sc_e c && sc_s true b
-  | SFor _ lo hi st b => sc_e lo && sc_e hi && sc_e st && sc_s true b
-  | SForEach _ it b => sc_e it && sc_s true b
-  | SRet | SNop => true
-  | SBreak | SContinue => inl
-  | SFn _ _ body => sc_ss false body
-  end
-with sc_ss (inl : bool) (b : sstmts) : bool :=
-  match b with SNil => true | SCons x r => sc_s inl x && sc_ss inl r end.
-Definition breaks_scoped (p : sstmts) : bool := sc_ss false p.
-
-Definition fn_good (f : fn_out) : bool :=
-  has_entry (f_blocks f) && unique_ids (f_blocks f) && dangling_all_lost f.
-Definition prog_good (p : sstmts) : bool := forallb fn_good (lower p).
 
 Fixpoint mk_stmts (l : list sstmt) : sstmts :=
   match l with [] => SNil | x :: r => SCons x (mk_stmts r) end.
@@ -82,36 +50,6 @@ Proof.
   pose proof (proj1 (forallb_forall _ _) sweep_true x Hx) as H1. cbv beta in H1.
   pose proof (proj1 (forallb_forall _ _) H1 t Ht) as H2.
   unfold sweep_body in H2. rewrite Hs in H2. exact H2.
-Qed.
-
-(* ---- unbounded glue: if every dangling target is a lost id and none of them is branched to,
-   all targets exist *)
-Lemma no_dangling_targets_exist bl : dangling bl = [] -> targets_exist bl = true.
-Proof.
-  intro H. unfold targets_exist. apply forallb_forall. intros b Hb.
-  apply forallb_forall. intros t Ht.
-  destruct (memN t (map fst bl)) eqn:E; [reflexivity|exfalso].
-  assert (Hin : In t (dangling bl)).
-  { unfold dangling. apply filter_In. split.
-    - apply in_flat_map. exists b. split; assumption.
-    - rewrite E. reflexivity. }
-  rewrite H in Hin. contradiction.
-Qed.
-
-Lemma all_lost_none_known f :
-  dangling_all_lost f = true -> known_class f = false -> dangling (f_blocks f) = [].
-Proof.
-  unfold dangling_all_lost, known_class. intros Ha Hk.
-  destruct (dangling (f_blocks f)) as [|t r]; [reflexivity|exfalso].
-  cbn [forallb existsb] in *. apply andb_true_iff in Ha as [Ha _].
-  apply orb_false_iff in Hk as [Hk _]. congruence.
-Qed.
-
-Lemma good_not_known_wf f : fn_good f = true -> known_class f = false -> wf_fn f = true.
-Proof.
-  unfold fn_good, wf_fn, wf_cfg. intros H Hk.
-  apply andb_true_iff in H as [H Hl]. apply andb_true_iff in H as [He Hu].
-  rewrite He, Hu. cbn. apply no_dangling_targets_exist. apply all_lost_none_known; assumption.
 Qed.
 
 (* bounded family, guarded: every function is well formed unless one of its branches goes to a
